@@ -156,6 +156,22 @@ def mutate(data, fault, other=None):
         # grow the input: repeat a chunk many times (length proportional checks)
         i, ln, times = fault[1] % max(n, 1), fault[2], fault[3]
         return data[:i] + data[i : i + ln] * times + data[i:]
+    if k == "multi":
+        # several faults at once (e.g. two length fields of one header that police each other)
+        for f in fault[1:]:
+            data = mutate(data, f, other)
+        return data
+    if k == "small_int":
+        # the j-th isolated single-digit integer token (an index into another table, a count, a flag) -> another digit
+        import re
+
+        toks = list(re.finditer(rb"(?<![\d.\-+eE])\d(?![\d.eE])", data))
+        if not toks:
+            return data
+        mobj = toks[fault[1] % len(toks)]
+        d = int(data[mobj.start() : mobj.end()])
+        new = (d + fault[2]) % 10
+        return data[: mobj.start()] + str(new).encode() + data[mobj.end() :]
     if k == "line_digit":
         # replace the k-th ascii digit run with a huge number (count / index fields in text formats)
         import re
